@@ -474,6 +474,10 @@ class String(FieldValidator[_P, str], Generic[_P]):
 
         if _VALIDATION_ENABLED.get():
             self.validate_one(value)
+        if self.len > 1:
+            # ctypes copies only up to the terminator: clear what a longer earlier value left behind
+            field = getattr(type(obj), self._private_name)
+            ctypes.memset(ctypes.addressof(obj) + field.offset, 0, field.size)
         setattr(obj, self._private_name, value.encode("ascii"))
 
     def validate_one(self, value: str):
